@@ -39,7 +39,8 @@ pub const F_ROLL_CALL: usize = 25;
 pub const F_RAMP: usize = 26;
 pub const F_THREAD_HOP: usize = 27;
 pub const F_ABORTED_FEED: usize = 28;
-pub const N_FAULTS: usize = 29;
+pub const F_MARATHON: usize = 29;
+pub const N_FAULTS: usize = 30;
 pub const FAULT_NAMES: [&str; N_FAULTS] = [
     "drop",
     "dup",
@@ -70,6 +71,7 @@ pub const FAULT_NAMES: [&str; N_FAULTS] = [
     "ramp",
     "thread-hop",
     "aborted-feed",
+    "marathon",
 ];
 
 /// Per-property weights. One world, shifted towards the property's subject.
@@ -127,6 +129,86 @@ pub fn add_hops(t: &mut Trace, r: &mut Rng, p: &Preset, stats: &mut Probes) {
     }
     if any {
         stats.faults_fired[F_THREAD_HOP] += 1;
+    }
+}
+
+/// Marathons come from lane 1 as well (after hops, aborts and the environment): one run in 1000 gets
+/// one, right after an event that names a channel. Rounds: 65535..65537 or 256*(255..257) (60 %),
+/// 2^20 (30-40 %), 2^24 .. 2^24+2 or 65536*255 (5 %; 10 % in the thorough tier; in C18's unoptimised
+/// profile only in the thorough tier).
+pub fn add_marathon(t: &mut Trace, r: &mut Rng, p: &Preset, stats: &mut Probes) {
+    if r.below(1000) != 0 || t.events.is_empty() {
+        return;
+    }
+    let deep = p.long_pm > 2;
+    let pos = r.below(t.events.len() as u64 + 1) as usize;
+    let inside_soak = t.events.iter().enumerate().any(|(j, e)| match e {
+        Ev::Repeat { k, .. } => pos + (*k as usize) > j && pos <= j,
+        _ => false,
+    });
+    let named = t.events[..pos].iter().rev().find_map(|e| match e {
+        Ev::EncCc14 { ch, .. } | Ev::Poll { ch } => Some((*ch, None)),
+        Ev::EncPn { ch, num, reg, .. } => Some((*ch, Some((*num, *reg)))),
+        Ev::Feed { b, .. } if b[0] >= 0x80 && b[0] < 0xF0 => Some((b[0] & 0x0F, None)),
+        _ => None,
+    });
+    let (ch, sel) = named.unwrap_or((r.below(16) as u8, None));
+    let big = |r: &mut Rng| if r.chance(1, 2) { (1u32 << 24) + r.below(3) as u32 } else { 65536 * (255 + r.below(2) as u32) };
+    let n = match r.below(20) {
+        0..=7 => 65535 + r.below(3) as u32,
+        8..=11 => 256 * (255 + r.below(3) as u32),
+        12..=17 => 1 << 20,
+        // 2^24 rounds cost seconds (tens of seconds at opt-level 0, which is C18's profile)
+        18 if p.name != "C18" || deep => big(r),
+        19 if deep => big(r),
+        _ => 1 << 20,
+    };
+    let len = 1 + r.below(3) as usize;
+    let mut cycle = Vec::new();
+    for _ in 0..len {
+        let b = match r.below(10) {
+            // re-selection of the channel's parameter number (or a random one), either half
+            0..=5 => {
+                let (num, reg) = sel.unwrap_or((r.below(16384) as u16, r.chance(1, 2)));
+                let msb = r.chance(1, 2);
+                let cn = match (reg, msb) {
+                    (true, true) => 101,
+                    (true, false) => 100,
+                    (false, true) => 99,
+                    (false, false) => 98,
+                };
+                let v = if r.chance(1, 4) { r.u7() } else if msb { (num >> 7) as u8 } else { (num & 0x7f) as u8 };
+                [0xB0 | ch, cn, v]
+            }
+            // an MSB-range controller of a 14-bit CC (never 6)
+            6 | 7 => {
+                let cn = *r.pick(&[0u8, 1, 2, 7, 10, 11, 31, 5]);
+                [0xB0 | ch, cn, r.u7()]
+            }
+            // other traffic on the channel, or a system real-time message
+            8 => [0x90 | ch, r.u7(), r.u7()],
+            _ => {
+                if r.chance(1, 2) {
+                    [0xF8, 0, 0]
+                } else {
+                    [0xB0 | ch, 64 + r.below(32) as u8, r.u7()]
+                }
+            }
+        };
+        cycle.push(b);
+    }
+    if inside_soak {
+        return;
+    }
+    t.events.insert(pos, Ev::Bulk { n, cycle });
+    stats.faults_fired[F_MARATHON] += 1;
+}
+
+/// What the process environment looks like to library code: decided per run from lane 1 (after
+/// hops and aborts): one run in 30 sees every variable set ("0", "1" or empty).
+pub fn pick_env_mode(t: &mut Trace, r: &mut Rng) {
+    if r.below(30) == 0 {
+        t.env_mode = 1 + r.below(3) as u8;
     }
 }
 
@@ -579,7 +661,7 @@ impl<'a> Gen<'a> {
         if cfg.read_step_ns > 0 {
             g.stats.faults_fired[F_CLOCK_TICK] += 1;
         }
-        (Trace { timeout_ns: cfg.timeout_ns, read_step_ns: cfg.read_step_ns, ctor_default: cfg.ctor_default, events: g.ev }, cfg)
+        (Trace { timeout_ns: cfg.timeout_ns, read_step_ns: cfg.read_step_ns, ctor_default: cfg.ctor_default, env_mode: 0, events: g.ev }, cfg)
     }
 
     fn fire(&mut self, f: usize, ch: Option<u8>) {
